@@ -774,8 +774,10 @@ Definition tr_ReadBytes (data : (list N)) (len : Z) (require : bool) (rd : go_re
     let '(rd, data, _, err) := (go_rd_readfull data rd) in
     Return (rd, data, err)) else Panic).
 
-(* NOT TRANSLATED tr_genRequestID_cas: tars/servant.go:98:1: slice "^" .. "atomic.CompareAndSwapInt32(&msgID, maxInt32, 1)" not found among the top-level statements of ServantProxy.genRequestID (the function changed: review the unit in harness/xlate_units.go) *)
-Definition tr_genRequestID_cas_untranslatable : unit := tt.
+(* tars/servant.go: func ServantProxy.genRequestID, statements "^" .. "atomic.CompareAndSwapInt32(&msgID, maxInt32, 1)" *)
+Definition tr_genRequestID_cas (maxInt32 : Z) (rd : Z) : ctl Z (Z * Z) :=
+  let '(rd, _) := (go_atomic_cas32 maxInt32 1 rd) in
+    Next rd.
 
 (* tars/servant.go: func ServantProxy.genRequestID, statements "for {" .. "for {" *)
 Fixpoint tr_genRequestID_loop (fuel : nat) (rd : Z) {struct fuel} : ctl Z (Z * Z) :=
